@@ -74,6 +74,10 @@ def enumerate_cases(tier, seed):
                     # the root's name ('<root>-private')
                     for cwd in ("root", "sub", "sibling"):
                         yield {"chroot": ch, "setuid": su, "setgid": sg, "fail": None, "real": False, "ids": 0, "cwd": cwd}
+    # the configured interface is an address this host does not have (yet): whatever start-up makes of that, no privilege is
+    # given up while the listening socket is unbound
+    for ch, su, sg in ((True, True, True), (True, False, False), (False, True, True), (False, False, True)):
+        yield {"chroot": ch, "setuid": su, "setgid": sg, "fail": None, "real": False, "ids": 0, "iface": "192.0.2.1"}
     # a fresh interpreter per start-up, with other string-hash seeds than this process runs under (the order in which a set or
     # a dict built from a set is walked differs from one server start to the next)
     for hs in (1, 2, 3, 5, 7, 11):
@@ -95,7 +99,7 @@ def _write_conf(base, root, case):
     cp.read_string(drive._read_conf("local.conf"))
     cp.set("pygopherd", "root", root)
     cp.set("pygopherd", "port", "0")
-    cp.set("pygopherd", "interface", "127.0.0.1")
+    cp.set("pygopherd", "interface", case.get("iface", "127.0.0.1"))
     cp.set("pygopherd", "detach", "no")
     cp.set("pygopherd", "usechroot", "yes" if case["chroot"] else "no")
     cp.set("pygopherd", "mimetypes", os.path.join(drive.REPO, "conf", "mime.types"))
@@ -209,11 +213,11 @@ def _predicates(case, trace, raised, server, root):
     # bind + TLS before any privilege is given up
     if priv_idx:
         first = priv_idx[0]
-        if "bind" not in names[:first]:
+        if not [t for t in trace[:first] if t[0] == "bind" and t[1]]:
             F("order:bind-after-drop", "the listening socket is not bound before the first privileged call")
         if "tls-load" not in names[:first]:
             F("order:tls-after-drop", "TLS keys are not loaded before the first privileged call")
-    elif fail is None and (case["chroot"] or case["setuid"] or case["setgid"]):
+    elif fail is None and (case["chroot"] or case["setuid"] or case["setgid"]) and not (raised and case.get("iface")):
         F("no-privileged-calls", "privilege options are configured but no privileged call was made")
     # injected failure aborts start-up
     if fail is not None:
@@ -227,6 +231,10 @@ def _predicates(case, trace, raised, server, root):
             pass  # reported below as missing chdir
         elif not raised:
             F("call-missing:" + fail, "expected call %s never happened" % fail)
+        return fails
+    if raised and case.get("iface"):
+        # an interface address the host does not have: start-up may give up - before anything else was done (the order of bind
+        # and privilege drop was checked above)
         return fails
     if raised:
         F("startup-failed", "fault-free start-up raised %r" % (raised,))
